@@ -1337,7 +1337,7 @@ fn copy_prop_reverse(
     // being replaced by `x`, (3) will end up becoming `x <- x`. We need to
     // clean these up.
     for (_, inst) in function.instruction_iter(context) {
-        let Some((dst_ptr, src_ptr, _byte_len)) = deconstruct_memcpy(context, inst) else {
+        let Some((dst_ptr, src_ptr, byte_len)) = deconstruct_memcpy(context, inst) else {
             continue;
         };
 
@@ -1350,7 +1350,14 @@ fn copy_prop_reverse(
             _ => continue,
         };
 
-        if dst_sym == src_sym {
+        // Only a copy of the whole symbol onto itself is a no-op. A copy between two parts
+        // of the same symbol (e.g., `a[0] = a[1]`) must stay.
+        let copies_whole_symbol = dst_sym
+            .get_type(context)
+            .get_pointee_type(context)
+            .is_some_and(|ty| ty.size(context).in_bytes() == byte_len);
+
+        if dst_sym == src_sym && copies_whole_symbol {
             to_delete.insert(inst);
         }
     }
